@@ -1,3 +1,3 @@
-import ArtapModel.Model.Runs
+import ArtapModel.Model.RunsAll
 /-! Line-protocol driver for C09. -/
-def main : IO Unit := Artap.Proto.serve Artap.Runs.handle
+def main : IO Unit := Artap.Proto.serve Artap.RunsAll.handle
